@@ -67,9 +67,9 @@ CHECKS = {
     ),
     "C18": dict(
         level="model_checking", design="DESIGN.md §3 C18 (narrow)",
-        technique="CrossHair (z3) exhaustion of iteration-order nondeterminism: stubs iterate System.root_names and Path.iterdir() in a solver-chosen permutation; the real consumers must give permutation-independent results",
-        text="Narrow claim. Bounded model checking against an arbitrary environment order: for 1..3 roots and every iteration order of the root-name collection, driver.get_system's project name, every object's url (index.html rule), the summary page list and the single-root rule are the same; for every listing order (120) of a package directory, System.addPackage discovers modules in the same order. Byte-identical output trees across hash seeds / reused output directories are NOT decided (not expressible to a solver).",
-        note="Trusted: CrossHair exhaustion verdict; the permutation stubs as the model of set / directory-listing order. File-system side effects are unblocked for the directory harness (mkdtemp only).",
+        technique="CrossHair (z3) exhaustion of iteration-order nondeterminism: System.root_names, Path.iterdir() and every set built by pydoctor's own code (source re-loaded through an AST-rewriting import hook) iterate in a solver-chosen permutation; results and rendered output trees must be permutation-independent",
+        text="Narrow claim. Bounded model checking against an arbitrary environment order: for 1..3 roots and every iteration order of the root-name collection, driver.get_system's project name, every object's url (index.html rule), the summary page list and the single-root rule are the same; for every listing order (120) of a package directory, System.addPackage discovers modules in the same order; K18c: with every set construction in pydoctor's source (set(), frozenset(), set displays/comprehensions, defaultdict(set)) rewritten at import to a set iterating in the chosen permutation, a 3/2/1-root project of mixed kinds rendered by the real writer (2 themes) gives byte-identical output trees for 6 (24) permutation indices. The hash seed's effect through sets inside third-party libraries, and a reused output directory, are NOT decided.",
+        note="Trusted: CrossHair exhaustion verdict; the permutation stubs as the model of set / directory-listing order (one permutation index per run for all sets); lib/setorder.py's rewrite covering every set construction form. File-system side effects are unblocked for the directory and rendering harnesses (mkdtemp only).",
     ),
     "C04": dict(
         level="model_checking", design="DESIGN.md §3 C04",
